@@ -304,6 +304,14 @@ func (rw *rewriter) run() {
 			} else if rw.name == "block_io.go" && isPkgSel(n.Fun, "syscall", "Recvmsg") {
 				n.Fun = sel("vrt", "SysRecvmsg")
 				rw.needVrt = true
+			} else if rw.name == "event_dispatcher.go" && len(n.Args) == 0 {
+				// getConnDupFd: `return f.File()` -> the duplicated descriptor's *os.File is tracked so that an aborted
+				// execution can close it explicitly (no finalizer closing a reused descriptor number later)
+				if se, ok := n.Fun.(*ast.SelectorExpr); ok && se.Sel.Name == "File" {
+					if _, isRet := c.Parent().(*ast.ReturnStmt); isRet {
+						c.Replace(rw.vrt("TrackFile", n))
+					}
+				}
 			} else if isPkgSel(n.Fun, "net", "Listen") {
 				n.Fun = sel("vrt", "NetListen")
 				rw.needVrt = true
